@@ -172,16 +172,16 @@ def part_static(ctx, rng):
     ents = catalog.entries(name=NAMES, rot=rots, cut=cuts)
     if not thorough:
         ents = [e for i, e in enumerate(ents) if i % 2 == 0 or (e["name"].endswith("_split") and e["rot"] == 0)]
-    elif len(ents) > 360:
-        keep = [e for e in ents if e["rot"] in (0, 3, 7, 12, 18, 22)]
-        rest = [e for e in ents if e["rot"] not in (0, 3, 7, 12, 18, 22)]
-        ents = keep + rng.sample(rest, 360 - len(keep)) if len(keep) < 360 else keep
+    elif len(ents) > 240:
+        keep = [e for e in ents if e["rot"] in (0, 7, 18)]
+        rest = [e for e in ents if e["rot"] not in (0, 7, 18)]
+        ents = keep + rng.sample(rest, 240 - len(keep)) if len(keep) < 240 else keep
     gen = run_gen(ctx, ents, 0, "catalogue")
     # grids WITHOUT crossing faces: the sub-mesh of the faces the specification keeps under 'exclude'
     derived = []
     for mi, e in enumerate(ents, start=1):
         c0 = gen[(mi, 0, 1)]
-        if e["cut"] == 0 and not c0["polecorner"] and not c0["tie"] and len(c0["kept"]) >= 2 and len(derived) < (60 if thorough else 5):
+        if e["cut"] == 0 and not c0["polecorner"] and not c0["tie"] and len(c0["kept"]) >= 2 and len(derived) < (30 if thorough else 5):
             d = dict(e)
             d["faces"] = [e["faces"][f] for f in c0["kept"]]
             d["closed"] = False
@@ -388,19 +388,19 @@ def part_history(ctx, rng, ents, gen, cases):
     n_alpha = {}
     if thorough:
         hs, n_alpha["pairs"] = gen_histories(ctx, "all histories of length <= 2, three families, full argument domains", maxlen=2, edit=True, emitfrom=1,
-                                             proj=["none", "rob", "rob180"], eng=["sp", "gp"], projects=["TRUE", "FALSE"], flags="FlagsThree", kinds=["gdf", "poly", "line"])
+                                             proj=["none", "rob", "rob180"], eng=["sp", "gp"], projects=["TRUE", "FALSE"], flags="FlagsTwo", kinds=["gdf", "poly", "line"])
         add(hs)
         hs, n_alpha["gdf3"] = gen_histories(ctx, "GeoDataFrame family, all histories of length 3", maxlen=3, edit=True, emitfrom=3,
                                             proj=["none", "rob180"], eng=["sp", "gp"], projects=["TRUE"], flags="FlagsTwo", kinds=["gdf"])
-        add(hs, cap_clean=110000)
+        add(hs, cap_clean=40000)
         hs, n_alpha["gdf3p"] = gen_histories(ctx, "GeoDataFrame family with project=False, one engine, length 3", maxlen=3, edit=False, emitfrom=3,
                                              proj=["rob", "rob180"], eng=["sp"], projects=["TRUE", "FALSE"], flags="FlagsTwo", kinds=["gdf"], pe=["exclude", "ignore"], vars_=("ta",))
-        add(hs, cap_clean=20000)
+        add(hs, cap_clean=8000)
         hs, n_alpha["poly3"] = gen_histories(ctx, "PolyCollection family, all histories of length 3", maxlen=3, edit=True, emitfrom=3,
-                                             proj=["none", "rob180"], eng=["sp"], projects=["TRUE"], flags="FlagsThree", kinds=["poly"])
-        add(hs, cap_clean=60000)
+                                             proj=["none", "rob180"], eng=["sp"], projects=["TRUE"], flags="FlagsTwo", kinds=["poly"])
+        add(hs, cap_clean=25000)
         hs, n_alpha["line3"] = gen_histories(ctx, "LineCollection family, all histories of length 3", maxlen=3, edit=True, emitfrom=3,
-                                             proj=["none", "rob", "rob180"], eng=["sp"], projects=["TRUE"], flags="FlagsAll", kinds=["line"])
+                                             proj=["none", "rob", "rob180"], eng=["sp"], projects=["TRUE"], flags="FlagsThree", kinds=["line"])
         add(hs)
         nsim = 4000
     else:
